@@ -520,6 +520,6 @@ def run(chk):
     if cvar:
         gv, resumers = c15.rule_inside(chk, cvar)
         if resumers and resumers[0] is not c15._wrapper(chk)[1]:
-            c15.rule_transparent(chk, cvar, gv, resumers)
+            c15.rule_transparent(chk, cvar, gv, resumers, only_close_forwarding=True)
     common.rule_forwarding(chk, "C03", keys=[("_action", "Action.finish")
 , ("_action", "Action.run"), ("_traceback", "write_traceback"), ("_traceback", "_writeTracebackMessage"), ("_traceback", "writeFailure")])
